@@ -5,9 +5,21 @@ from hypothesis import strategies as st
 @st.composite
 def post_selection(draw, n_modes, max_photons):
     """None | {"rules": [[modes, counts], ...]} | {"pred": [...]}"""
-    kind = draw(st.integers(0, 3))
+    kind = draw(st.integers(0, 4))
     if kind == 0 or n_modes == 0:
         return None
+    if kind == 4:
+        # several rules may share modes (multi_rules=True), also on exactly the same mode tuple
+        rules = []
+        for _ in range(draw(st.integers(2, 3))):
+            if rules and draw(st.booleans()):
+                modes = list(rules[-1][0])
+            else:
+                modes = sorted(draw(st.lists(st.integers(0, n_modes - 1), unique=True, min_size=1,
+                                             max_size=min(3, n_modes))))
+            counts = draw(st.lists(st.integers(0, max(1, max_photons)), unique=True, min_size=1, max_size=3))
+            rules.append([modes, sorted(counts)])
+        return {"rules": rules, "multi": True}
     if kind in (1, 2):
         rules = []
         free = list(range(n_modes))
